@@ -87,8 +87,14 @@ def restore_rules(ctx, RULE: str) -> None:
     # the restore branch must be reachable on all paths where recent_engine.run_id is not None
     tests = [n for n in g.nodes if n.kind == "test" and "run_id is not None" in norm(n.ast)]
     if tests and assigns:
+        # every test that establishes "a run id is stored"; path sensitive for the repeated `recent_engine is not None` tests (a path
+        # on which the first of them was true cannot take the false outcome of a later one)
+        p = None
         t = tests[0]
-        p = g.path_to_exit_avoiding([(t.id, "T")], lambda n: any(n.id == a.id for a, _ in assigns))
+        for t_ in tests:
+            p_ = g.consistent_path_to_exit_avoiding([(t_.id, "T")], lambda n: any(n.id == a.id for a, _ in assigns))
+            if p_ is not None and p is None:
+                p, t = p_, t_
         if p is not None:
             ctx.fail(RULE, rest, t.ast, "_try_restore: all paths with stored run id restore run data",
                      "a path with a stored run id leaves run data unset", p)
